@@ -79,6 +79,7 @@ func checkC06(r *Run) {
 	r.Rule("C06.R1.guard", "Operation.apply is called only from the frozen set of appliers; outside TxRequest.commitTo each call lies on the true edge of supersedes(ctx, w, op) with the same writer w and operation op", 4)
 	r.Rule("C06.R1.complete", "after supersedes reported true for an operation, every path of that iteration applies it (no further filtering of superseding operations, tombstones included)", 2)
 	r.Rule("C06.R6.lease", "leaseAllocator.getLease answers with the Leaseholder of the stored digest whenever one exists, whatever its variant: a deleted key keeps its leaseholder, so versions of one key always come from one counter", 1)
+	r.Rule("C06.R7.rule", "the conflict rule itself: with a stored digest, supersedes(op) is true exactly when op's version is newer, or equal with a higher leaseholder (finite case analysis over the 9 orderings; an older operation never wins)", 1)
 	r.Rule("C06.R2.digest", "after every Operation.apply each path to a normal continuation passes op.Digest().apply with the same writer; no digest is written without its value", 3)
 	r.Rule("C06.R3.version", "Operation.Version is written only in versionAssigner.assign (from the counter value read before a successful counter.Add), Digest.Operation and recoveryServer.recoverPeer", 4)
 	r.Rule("C06.R4.topology", "kv.Open wires gossip ingress -> filterPersist only, leaseProxy(local) -> versionAssigner -> persist, filterPersist(accepted) -> persist_delta, filterPersist(rejected) -> feedback_sender, and the lease proxy takes the local route iff Leaseholder == HostKey()", 9)
@@ -89,6 +90,62 @@ func checkC06(r *Run) {
 	checkKVTopologyC06(r, k)
 	checkRecoveryServer(r, k)
 	checkLeaseSticky(r, k)
+	checkConflictRule(r, k, "C06.R7")
+}
+
+// checkConflictRule decides C06.R7: after the stored digest was read, supersedes(op) is
+// decided on the 9 orderings of (op.Version vs dig.Version, op.Leaseholder vs
+// dig.Leaseholder) and compared with the rule of the property: higher version wins, equal
+// versions go to the higher leaseholder. Case analysis on the syntax tree; the comparison
+// methods of version.Counter are inlined from their bodies.
+func checkConflictRule(r *Run, k *kvCtx, rule string) {
+	p := k.p
+	fn := k.superF
+	if fn == nil || fn.Body == nil {
+		r.Undecide(rule+": supersedes not found")
+		return
+	}
+	op := paramObj(fn, 2)
+	var dig types.Object
+	tail := -1
+	for i, st := range fn.Body.List {
+		if as, ok := st.(*ast.AssignStmt); ok && len(as.Rhs) == 1 && len(as.Lhs) == 2 {
+			if call, ok := ast.Unparen(as.Rhs[0]).(*ast.CallExpr); ok {
+				if f := CalleeFunc(fn, call); f != nil && f.Name() == "getDigestFromKV" {
+					dig = objOf(fn, as.Lhs[0])
+				}
+			}
+		}
+		if ifs, ok := st.(*ast.IfStmt); ok && dig != nil && tail < 0 {
+			if o, trueMeansNil, ok := nilCompare(fn, ifs.Cond); ok && isErrorType(o.Type()) && !trueMeansNil {
+				tail = i + 1
+			}
+		}
+	}
+	if op == nil || dig == nil || tail < 0 {
+		r.Undecide(rule+": supersedes no longer has the shape 'read digest; if err != nil {...}; decide'")
+		return
+	}
+	e := &ordEval{fn: fn, recv: op, par: dig, prog: p, boolErr: true}
+	var diffs []string
+	for _, v := range []int{-1, 0, 1} {
+		for _, l := range []int{-1, 0, 1} {
+			got, ret := e.stmts(fn.Body.List[tail:], ordCase{"Version": v, "Leaseholder": l})
+			if e.bad != "" {
+				r.Undecide(rule+": %s", e.bad)
+				return
+			}
+			if !ret {
+				r.Undecide(rule+": a path of supersedes falls off the end")
+				return
+			}
+			want := v > 0 || (v == 0 && l > 0)
+			if got != want {
+				diffs = append(diffs, fmt.Sprintf("(version %s, leaseholder %s): returns %v, want %v", sgn(v), sgn(l), got, want))
+			}
+		}
+	}
+	r.Ob(rule+".rule", "supersedes == (version newer) or (version equal and leaseholder higher), on all 9 orderings", p.Position(fn.Pos()), len(diffs) == 0, strings.Join(diffs, "; "))
 }
 
 // ---- R1
@@ -628,6 +685,7 @@ func checkC13(r *Run) {
 	}
 	r.Rule("C13.R1.topology", "observable <- persist_delta only; persist_delta <- {persist, filter_persist} only; gossip ingress, feedback and recovery routes never reach persist_delta or observable except through filter_persist", 4)
 	r.Rule("C13.R2.dedup", "the dedup test runs inside the persisting transaction (shared with C06.R1); accepted ops are collected only after both writes succeeded and published only on a nil transaction error; persist forwards iff commitTo returned nil and commitTo returns the Commit error", 6)
+	r.Rule("C13.R4.rule", "the dedup/staleness decision is the property's rule: supersedes is true exactly for a newer version, or an equal version from a higher leaseholder (9 orderings); an operation that lost to a stored newer one is never accepted, hence never published", 1)
 	r.Rule("C13.R3.wrapper", "txObservable.OnChange is called only by observable.OnChange; the wrapper skips the handler only for ignoreHostLeaseholder && Leaseholder == HostKey()", 2)
 	p, t, a := k.p, k.topo, k.addr
 	pos := p.Position(t.Fn.Pos())
@@ -670,6 +728,7 @@ func checkC13(r *Run) {
 	checkPersistForward(r, k)
 	// R3
 	checkObservableWrapper(r, k)
+	checkConflictRule(r, k, "C13.R4")
 }
 
 func checkAcceptedCollection(r *Run, k *kvCtx) {
